@@ -40,6 +40,9 @@ CLAIMED = {
  "C20": dict(tech="taint of request ids to the config-load sink with CFG dominance of the raw-id rejection and root-containment tests (both raising); try/except conversion at the caller; who-may-write on the instance cache; reaching-definition (same SSA value) analysis of the thread key and message list; sibling check of the DataStore implementations",
              text="Decides for every config id string at once (not sampled ids) that the only file-system sink on a request-derived path is dominated by a rejection of separators/dot-dot on the RAW id and by a containment test of the normalised path, both raising ValueError that the endpoint turns into the fixed reply; that thread get/set use one key definition, generate receives stored+new in order and what is stored is that very list plus the returned reply; and that every store implementation is key- and value-faithful.",
              ref="DESIGN.md C20"),
+ "C19": dict(tech="await-marking of CFG regions (cooperative-scheduling atomicity) in the batching code; index/value pairing by def-use; sibling agreement of the cache's get/set key derivation",
+             text="Decides, for all interleavings at once, that the enqueue region and the snapshot region of the request batching contain no task switch, that batch position i belongs to request id i on both the text and the result side, that results are stored before the event is set, and that the cache wrapper computes/stores/returns paired and in input order. Model values, hash collisions and timing are not decided.",
+             ref="DESIGN.md C19"),
 }
 NA = {
  "C18": "equality of string results over all chunkings of a stateful transducer; no structural necessary condition that is not a brittle proxy (DESIGN.md C18)",
